@@ -281,3 +281,66 @@ func plainSlot(a *ssa.Alloc) bool {
 	}
 	return true
 }
+
+// blocksOf: the blocks of fn without a dead recover block. A function with a defer statement gets a block that
+// runs after a deferred call has recovered from a panic (it returns whatever the result slots hold). When no
+// deferred callee of the function can call recover() - a deferred Unlock, a deferred closure without recover -
+// that block is dead; its return of "whatever the slots hold" would otherwise look like a path that returns
+// every value stored anywhere in the function.
+func blocksOf(fn *ssa.Function) []*ssa.BasicBlock {
+	if fn.Recover == nil || !deadRecover(fn) {
+		return fn.Blocks
+	}
+	out := make([]*ssa.BasicBlock, 0, len(fn.Blocks))
+	for _, b := range fn.Blocks {
+		if b != fn.Recover {
+			out = append(out, b)
+		}
+	}
+	return out
+}
+
+var deadRecoverMemo = map[*ssa.Function]bool{}
+
+func deadRecover(fn *ssa.Function) bool {
+	if v, ok := deadRecoverMemo[fn]; ok {
+		return v
+	}
+	dead := true
+	for _, b := range fn.Blocks {
+		for _, in := range b.Instrs {
+			d, ok := in.(*ssa.Defer)
+			if !ok {
+				continue
+			}
+			var callee *ssa.Function
+			switch v := d.Call.Value.(type) {
+			case *ssa.Function:
+				callee = v
+			case *ssa.MakeClosure:
+				callee, _ = v.Fn.(*ssa.Function)
+			}
+			switch {
+			case d.Call.IsInvoke() || callee == nil:
+				dead = false // unknown callee: it may recover
+			case callee.Pkg != nil && callee.Pkg.Pkg.Path() == "sync":
+			case len(callee.Blocks) == 0:
+				dead = false
+			default:
+				for _, cb := range callee.Blocks {
+					for _, ci := range cb.Instrs {
+						if c, ok := ci.(ssa.CallInstruction); ok {
+							if bi, ok := c.Common().Value.(*ssa.Builtin); ok && bi.Name() == "recover" {
+								dead = false
+							} else if _, isBuiltin := c.Common().Value.(*ssa.Builtin); !isBuiltin {
+								dead = false // it calls something else: that may recover
+							}
+						}
+					}
+				}
+			}
+		}
+	}
+	deadRecoverMemo[fn] = dead
+	return dead
+}
